@@ -283,6 +283,18 @@ where
         return Ok(output.into_dyn());
     }
 
+    // The im2col padding test compares element offsets along the H and W axes
+    // with the offset of the last row/column. That only identifies the padding
+    // region if those axes have a non-zero stride, so copy inputs whose spatial
+    // axes are broadcast (zero-stride) views.
+    let input_copy;
+    let input = if input.stride(2) == 0 || input.stride(3) == 0 {
+        input_copy = input.to_tensor_in(pool).auto_return(pool);
+        input_copy.view()
+    } else {
+        input
+    };
+
     let n_patches = out_h * out_w;
     let mut output = NdTensor::uninit_in(pool, [batch, out_channels, n_patches]);
     let gemm = GemmExecutor::<W, X, Y>::default();
